@@ -3,7 +3,7 @@
 #   determinism : same VERIF_SEED => same event log, across executions, processes and worker counts;
 #                 corpus generator independent of PYTHONHASHSEED
 #   mutants     : sensitivity / specificity against /verif/mutants/*.diff in scratch worktrees
-# usage: ./selftest.sh determinism [nseeds] | mutants [-j N] | all
+# usage: ./selftest.sh determinism [nseeds] | robust | mutants [-j N] | all
 set -u
 cd "$(dirname "$0")"
 export CARGO_NET_OFFLINE=true CARGO_TARGET_DIR=/verif/target
@@ -57,9 +57,28 @@ determinism() {
   [ "$fail" -eq 0 ]
 }
 
+robust() {
+  # the fallback corpus must build and hold on the unchanged tree, and be what the generator produces
+  tmp=$(mktemp -d /tmp/vrob.XXXXXX)
+  python3 gen/gen_corpus.py --seed 7 --out "$tmp/gen" --size robust >/dev/null
+  fail=0
+  for f in c05.rs c10.rs c11.rs c17.rs; do
+    cmp -s "$tmp/gen/$f" "sim/corpus/robust/$f" || { echo "committed robust corpus is stale: $f"; fail=$((fail+1)); }
+  done
+  for eng in sim_c05 sim_c10 sim_c11 sim_c17; do
+    (cd sim && VERIF_CORPUS_DIR=/verif/sim/corpus/robust CARGO_TARGET_DIR="$tmp/target" cargo build --offline --bin $eng -q) || { echo "robust corpus does not build for $eng"; fail=$((fail+1)); continue; }
+    "$tmp/target/debug/$eng" --runs 300000 --replay-dir "$tmp/rp" --corpus-tag robust | tail -1
+    [ "${PIPESTATUS[0]}" -eq 0 ] || { echo "robust corpus: violation or error for $eng"; fail=$((fail+1)); }
+  done
+  rm -rf "$tmp"
+  echo "robust: failures=$fail"
+  [ "$fail" -eq 0 ]
+}
+
 case "$mode" in
   determinism) determinism ;;
+  robust) robust ;;
   mutants) shift; python3 mutants/run_mutants.py "$@" ;;
-  all) determinism && python3 mutants/run_mutants.py -j 6 ;;
-  *) echo "usage: $0 determinism [nseeds] | mutants [-j N] | all"; exit 2 ;;
+  all) determinism && robust && python3 mutants/run_mutants.py -j 6 && python3 seeded/recheck.py -j 6 ;;
+  *) echo "usage: $0 determinism [nseeds] | robust | mutants [-j N] | all"; exit 2 ;;
 esac
